@@ -7,6 +7,7 @@ import (
 	"io"
 	"strings"
 	"testing"
+	"time"
 
 	cose "github.com/veraison/go-cose"
 	"github.com/veraison/psatoken"
@@ -43,6 +44,18 @@ func (s *faultySigner) Sign(_ io.Reader, content []byte) ([]byte, error) {
 	}
 }
 
+// slowSigner answers correctly, but late.
+type slowSigner struct {
+	inner cose.Signer
+	delay time.Duration
+}
+
+func (s *slowSigner) Algorithm() cose.Algorithm { return s.inner.Algorithm() }
+func (s *slowSigner) Sign(r io.Reader, content []byte) ([]byte, error) {
+	time.Sleep(s.delay)
+	return s.inner.Sign(r, content)
+}
+
 // envelope state of the model
 type c19Env struct {
 	kind string // "none", "tok", "maybe"
@@ -51,6 +64,10 @@ type c19Env struct {
 	// undecodable: tok's payload is the encoding of claims this process
 	// cannot decode (see c19Machine.opaque)
 	undecodable bool
+	// canonical: tok's payload is, byte for byte, what the library's encoder
+	// emits for these (valid) claims (C03/C09): the attached claims must
+	// re-encode to exactly the covered payload
+	canonical bool
 }
 
 var c19Pool = []keyPair{}
@@ -135,6 +152,13 @@ func (mc *c19Machine) verifyAll(t *rapid.T) {
 				}
 				if o0, o1 := extOwn(mc.ev.Claims), extOwn(want); o0 != o1 {
 					mc.fail(t, "Verify(%s) succeeds but the extension's own claims held by the attached claims-set (%s) are not in the signed payload (%s)", k.Name(), o0, o1)
+				}
+				if mc.env.canonical {
+					// independent of the library's getters: the attached claims
+					// re-encode to the covered bytes
+					if re, rerr := psatoken.EncodeClaimsToCBOR(mc.ev.Claims); rerr != nil || !bytes.Equal(re, parts.Payload) {
+						mc.fail(t, "Verify(%s) succeeds but the attached claims do not re-encode to the payload the signature covers (%v):\n   payload  %x\n   attached %x", k.Name(), rerr, parts.Payload, re)
+					}
 				}
 			}
 		}
@@ -224,7 +248,7 @@ func c19Run(t *rapid.T, st *Stats) {
 		}
 		mc.replacedSince = false
 		if kind == "good" {
-			mc.env = c19Env{kind: "tok", tok: tok, key: ki, undecodable: mc.opaque}
+			mc.env = c19Env{kind: "tok", tok: tok, key: ki, undecodable: mc.opaque, canonical: true}
 			mc.goodSigns++
 			// the returned token decodes and verifies independently of this Evidence
 			parts, ok := icose.Split(tok)
@@ -345,6 +369,7 @@ func c19Run(t *rapid.T, st *Stats) {
 			var tok []byte
 			layer := "ok" // expected outcome: ok | claims | cose
 			keyIdx := ki
+			canonical := false
 			switch kind {
 			case "valid-other-header-spelling":
 				// correctly signed by an encoder that spells the protected
@@ -379,6 +404,7 @@ func c19Run(t *rapid.T, st *Stats) {
 			case "valid", "other-profile", "tampered-signature":
 				m := GenValid(t, drawProf(t), false)
 				var err error
+				canonical = true // a valid model's wire form is the library's own encoding
 				tok, err = icose.SignedToken(k.Alg, k.Priv, m.WireBytes())
 				if err != nil {
 					t.Fatalf("VERIF-INFRA: %v", err)
@@ -470,7 +496,7 @@ func c19Run(t *rapid.T, st *Stats) {
 				if err != nil {
 					mc.fail(t, "UnmarshalCOSE of a well-formed %s token failed: %v", kind, err)
 				}
-				mc.env = c19Env{kind: "tok", tok: tok, key: keyIdx}
+				mc.env = c19Env{kind: "tok", tok: tok, key: keyIdx, canonical: canonical}
 				mc.replacedSince = false
 				mc.lastFailed = false
 				mc.opaque = false
@@ -584,6 +610,35 @@ func TestC19_EvidenceHistories(t *testing.T) {
 		}
 		if err := psatoken.RegisterProfile(es.Impl); err != nil {
 			t.Fatalf("VERIF-INFRA: %v", err)
+		}
+	}
+	// deterministic prelude: a signer that takes 5.5 s to answer (a remote /
+	// hardware signer). If the library gives up on it (error, no token), the
+	// Evidence must not become verifiable when the answer arrives later.
+	if shard, _ := shardInfo(); shard == 0 {
+		kp := keyFor(icose.EdDSA, 0)
+		lit, _ := baseValid(P2, 1).BuildLiteral()
+		ev := &psatoken.Evidence{}
+		if err := ev.SetClaims(lit); err != nil {
+			t.Fatalf("VERIF-INFRA: %v", err)
+		}
+		tok, err := ev.ValidateAndSign(&slowSigner{inner: kp.Signer(), delay: 5500 * time.Millisecond})
+		if err == nil {
+			if d, derr := psatoken.DecodeEvidenceFromCOSE(tok); derr != nil || d.Verify(kp.Pub) != nil || ev.Verify(kp.Pub) != nil {
+				t.Fatalf("C19 violated: signing with a slow signer returned a token that does not decode / verify (%v)", derr)
+			}
+			st.Case("prelude|slow-signer|signed", "slow-signer")
+		} else {
+			if len(tok) != 0 {
+				t.Fatalf("C19 violated: a failed signing attempt (slow signer) returned %d bytes", len(tok))
+			}
+			for i := 0; i < 4; i++ {
+				if ev.Verify(kp.Pub) == nil {
+					t.Fatalf("C19 violated: signing with a slow signer FAILED (%v) and returned no token, yet %d ms later the Evidence verifies (the abandoned signer completed the envelope)", err, i*700)
+				}
+				time.Sleep(700 * time.Millisecond)
+			}
+			st.Case("prelude|slow-signer|refused", "slow-signer")
 		}
 	}
 	rapid.Check(t, func(t *rapid.T) { c19Run(t, st) })
